@@ -177,6 +177,10 @@ M = {
     'c12-sumif-adds-anything': ('C12', [(CTX, "criteria(range_[i]) and isinstance(sum_range[i], (int, float)):", "criteria(range_[i]):")],
                                 'SUMIF adds whatever the selected cell holds again: TypeError on a text (the repaired defects f2f712a / f42018f)'),
     'c16-negative-zero': ('C16', [(CTX, "float(result) + 0.0", "float(result)")], 'a negative amount rounded to nothing is -0.0 again (part of the repaired defect 625a7a1)'),
+    'c12-date-text-completed-from-today': ('C12', [(CTX, "date_parser.parse(date, default=datetime.datetime(datetime.date.today().year, 1, 1))", "date_parser.parse(date)")],
+                                           'the parts a date text leaves out come from today again: ">=Jan 2024" selects by the day of the month on which it is asked (31b228a)'),
+    'c18-unknown-value-type-emitted': ('C18', [(SRC + 'translators/cell_translator.py', "            elif isinstance(cell.value, (bool, int, float, str, datetime.date, datetime.time, datetime.timedelta)):", "            elif True:")],
+                                       'the repr() of any object is written into the class again (the repaired defect d1ed4bc)'),
 }
 
 
